@@ -76,6 +76,21 @@ func runCLIMode(ctx context.Context, c *Case, m Mode, hcl bool, root string) (re
 			res.Skip = "eval-hcl: " + err.Error()
 			return
 		}
+		if os.Getenv("ROWS_DEBUG_HCL") != "" {
+			// diagnostic: which tables differ between the SQL desired state and its HCL export re-read
+			if c0, err := sqlclient.Open(ctx, "sqlite://"+path+"?_fk="+fk); err == nil {
+				if cur0, err := c0.InspectSchema(ctx, "", nil); err == nil {
+					d1, _ := c0.SchemaDiff(cur0, des)
+					cur1, _ := c0.InspectSchema(ctx, "", nil)
+					d2, _ := c0.SchemaDiff(cur1, &s2)
+					a, b2 := changedTables(d1), changedTables(d2)
+					if fmt.Sprint(sortedKeys(a)) != fmt.Sprint(sortedKeys(b2)) {
+						fmt.Fprintf(os.Stderr, "HCLDIFF %s sql=%v hcl=%v\n%s\n---hcl---\n%s\n", c.ID, sortedKeys(a), sortedKeys(b2), caseText(c), b)
+					}
+				}
+				c0.Close()
+			}
+		}
 		des = &s2
 		args = append(args, "--to", "file://"+to)
 	} else {
